@@ -49,9 +49,10 @@ if keep:
     src = os.path.dirname(patch)
     dst = os.path.join(V, 'seeded', keep)
     os.makedirs(dst, exist_ok=True)
-    for f in os.listdir(src):
-        if os.path.isfile(os.path.join(src, f)):
-            shutil.copy(os.path.join(src, f), os.path.join(dst, f))
+    if os.path.realpath(src) != os.path.realpath(dst):
+        for f in os.listdir(src):
+            if os.path.isfile(os.path.join(src, f)):
+                shutil.copy(os.path.join(src, f), os.path.join(dst, f))
     mp = os.path.join(dst, 'meta.json')
     try:
         meta = json.load(open(mp))
